@@ -52,3 +52,26 @@ package chord
 //@   ensures word: r.state.v == pack(0, initial)
 //@   ensures history: r.history.keys[0] && r.history.m[0] == initial
 //@   ensures history-only-zero: forall k uint64 :: r.history.keys[k] ==> k == 0
+
+// ---- C09 / C01: lookups
+
+//@ pure (*LocalNode).ID
+
+//@ func (n *LocalNode) closestPrecedingNode(key uint64) (r chord.VNode)
+//@   arith bv
+//@   use ids48
+//@   opt inline=fingerRangeView,computeView
+//@   requires n.ID() < 1<<48 && key < 1<<48
+//@   ensures non-nil: r != nil
+//@   ensures self-or-strictly-between: r == n || between48(n.ID(), r.ID(), key, false)
+//@   loop fingerRangeView/k: invariant index: 0 <= k && k <= 48
+//@   loop fingerRangeView/k: invariant candidate: finger == nil || between48(n.ID(), finger.ID(), key, false)
+
+//@ func (n *LocalNode) FindSuccessor(key uint64) (r chord.VNode, err error)
+//@   arith bv
+//@   use ids48
+//@   opt recursion=lookup
+//@   opt inline=checkNodeState,getPredecessor,getSuccessor
+//@   requires n.ID() < 1<<48 && key < 1<<48 && n.state != nil
+//@   modifies nodeState.state
+//@   decreases dist48(n.ID() + 1, key)
